@@ -111,6 +111,16 @@ CHECKS = {
         note="ASCII names (Unicode case folding beyond the alphabet is excluded, DESIGN 2.4); the error is checked to name the enum.",
         technique="TLA+ spec (FromStr) + TLC exhaustive enums x strings, replay and trace validation on the real derive",
         design="4 (C13)"),
+    "C10": dict(
+        text="TLC enumerates Ops.tla's contract (24 operator derives x struct/enum shapes x forward; results as symbolic, "
+             "non-commutative terms; internal laws: assign = in-place form, folds start from the field-wise empty "
+             "sum/product, mismatch iff different variants); every case is compiled with the real derive on instrumented "
+             "operand types that mix (operator, lhs, rhs) into the value, exercised through the operators themselves on every "
+             "variant pair / operand / 0..n-item iterator, and compared with the contract's terms evaluated by the same mixing.",
+        note="two operand types alternate over the fields (so per-type where-clauses are exercised), a third is the scalar; "
+             "the specification is the documented contract only (no Impl layer: the derives are straight-line).",
+        technique="TLA+ contract (Ops) + TLC enumeration, replay on instrumented operand types",
+        design="4 (C10)"),
 }
 
 NOT_YET = {}
